@@ -3,6 +3,7 @@
 //! BLAKE, the SHA-3 hash finalist based on the ChaCha cipher
 
 #![cfg_attr(not(feature = "std"), no_std)]
+#![allow(unexpected_cfgs)] // cfg(cryptocorrosion_verif): verification hooks
 #[cfg(feature = "std")]
 use std as core;
 
@@ -171,6 +172,15 @@ macro_rules! define_hasher {
                 if carry {
                     t.1 += 1;
                 }
+            }
+        }
+
+        #[cfg(cryptocorrosion_verif)]
+        impl $name {
+            /// Verification hook: overwrite the chaining value and the bit counter (the block buffer is left as is).
+            pub fn verif_set_state(&mut self, h: [$word; 8], t: ($word, $word)) {
+                self.compressor.h = [[h[0], h[1], h[2], h[3]].into(), [h[4], h[5], h[6], h[7]].into()];
+                self.t = t;
             }
         }
 
